@@ -130,6 +130,34 @@ func (s *ProtoScenario) Check(k *sim.Kernel) []sim.Violation {
 		faulted := cs.End != "close" || cs.NoRead
 		out = append(out, checkClientConn(sf("client%d", ci), s.Service, s.Scripts, cs, conns[ci], perClient[ci], faulted, s.Faulted, false)...)
 	}
+	// ---- independence: while a handler of one connection is blocked (script
+	// action "hold", released at the first quiet point), calls on the other
+	// connections are dispatched; none of them may have had to wait for the release
+	var release uint64
+	holder := -1
+	for _, e := range k.Log {
+		if e.Kind == "h.hold.released" && release == 0 {
+			release = e.Seq
+			for ci := range s.Clients {
+				if c := conns[ci]; c != nil && c.Server.UsedBy(e.Task) {
+					holder = ci
+				}
+			}
+		}
+	}
+	if release != 0 && holder >= 0 {
+		for ci, cs := range s.Clients {
+			if ci == holder || cs.End != "close" || cs.NoRead || cs.StopAfter > 0 {
+				continue
+			}
+			for _, e := range perClient[ci] {
+				if e.kind == "h.enter" && e.seq > release {
+					out = append(out, vio("independence", "blocked-by-other-connection", "client%d: a call was dispatched only at seq %d, after the handler of client%d's connection (blocked since before, released at seq %d when everything else had gone quiet) had returned: traffic on one connection held up another", ci, e.seq, holder, release))
+					break
+				}
+			}
+		}
+	}
 	// handler events that belong to no scripted client (the probe connection has none)
 	for _, e := range perClient[-1] {
 		if e.kind == "h.enter" {
@@ -393,7 +421,7 @@ func genScript(g *Gen, sizeClass func() int) Script {
 			sc.Actions = append(sc.Actions, Action{Op: "sleep", N: g.IntN(2000)})
 		case 8:
 			if g.Pct(40) {
-				sc.Actions = append(sc.Actions, Action{Op: "fail"})
+				sc.Actions = append(sc.Actions, Action{Op: "fail", Name: g.Pick("", "", "deadline", "timeout")})
 				return sc
 			}
 		default:
